@@ -1,8 +1,8 @@
 #!/bin/sh
 # eval_wave.sh <Cxx> [extra properties...] : evaluate every deliverable of the mutation agent for <Cxx>
 # (/tmp/mut/<Cxx>/deliver/<slug>/) with seed_eval.py; results go to /verif/seeded/<Cxx>-<slug>/.
-id=$1; shift
+id=$1; shift; prop=${id%R2}
 for d in /tmp/mut/$id/deliver/*/; do
   [ -f "$d/patch.diff" ] || continue
-  python3 "$(dirname "$0")/seed_eval.py" "$id" "$d" "$@"
+  python3 "$(dirname "$0")/seed_eval.py" "$prop" "$d" "$@"
 done
